@@ -3,6 +3,8 @@
 // on masks of five provenances and observed five ways (depth-2 chaining, DESIGN.md C03).
 #include "xv_harness.hpp"
 
+#include <complex>
+
 #include <deque>
 #include <string>
 
@@ -315,6 +317,19 @@ namespace xv
     XV_SCALAR_CMP(c_ge_rs, x >= s, false)
     XV_SCALAR_CMP(c_ge_ls, s >= x, true)
     XV_OP3(c_select, xs::select(a, b, c))
+    // select on complex batches (floating-point T): the real and the imaginary parts must both come from the chosen branch
+    template <class T>
+    using CBt = xs::batch<std::complex<T>, arch>;
+    struct c_select_cre
+    {
+        template <class T, class X, class Y, class Z>
+        static Y f(X const& m, Y const& b, Z const& c, long) { return xs::select(m, CBt<T>(b, c), CBt<T>(c, b)).real(); }
+    };
+    struct c_select_cim
+    {
+        template <class T, class X, class Y, class Z>
+        static Y f(X const& m, Y const& b, Z const& c, long) { return xs::select(m, CBt<T>(c, b), CBt<T>(b, c)).imag(); }
+    };
 
     // select with a compile-time mask: 136 masks per lane count (one-hot and all-but-one for every lane position
     // modulo the lane count, alternating, halves, quarters, pairs, a pseudo-random pattern, all, none)
@@ -388,6 +403,11 @@ namespace xv
         reg<c_select, T, B<T>, PV<T, P_cmp>, B<T>, B<T>>("C03", "select.cmp");
         reg<c_select, T, B<T>, PV<T, P_cast>, B<T>, B<T>>("C03", "select.cast");
         reg<c_select_const, T, B<T>, B<T>, B<T>>("C03", "select_const");
+        if constexpr (std::is_floating_point<T>::value)
+        {
+            reg<c_select_cre, T, B<T>, BB<T>, B<T>, B<T>>("C03", "select.complex.re");
+            reg<c_select_cim, T, B<T>, BB<T>, B<T>, B<T>>("C03", "select.complex.im");
+        }
     }
 
     template <class... T>
